@@ -909,6 +909,8 @@ class Repo(object):
                 return max(*args)
             if n == 'object' and not args:
                 return Token('object@%s:%d' % (m.relpath, e.lineno))
+            if n == 'bytes.fromhex' and len(args) == 1 and isinstance(args[0], str):
+                return bytes.fromhex(args[0])
             if n == 'struct.Struct' and len(args) == 1:
                 return StructVal(args[0])
             if n == 'struct.calcsize' and len(args) == 1:
